@@ -264,6 +264,27 @@ def shard(shard, seed, n):
     return run
 
 
+def shard_enum(shard, nshards, stride, offset):
+    """Bounded-exhaustive: the analyses on every connective / quantifier combination (binders shadowing free
+    symbols of the same name) and on every one- / two-operator theory term."""
+    import itertools
+    import random
+    from vf import enumterms
+    run = Run(PID)
+    g = G(cfg=CFGS[0], rnd=random.Random(offset))
+    idx = 0
+    for t in itertools.chain(enumterms.bool_quant_terms(40 * stride), (x for v in enumterms.depth1().values() for x in v),
+                             enumterms.depth2()):
+        idx += 1
+        if idx % nshards != shard:
+            continue
+        if idx > 12000 and (idx // nshards) % (8 * stride) != offset % (8 * stride):
+            continue
+        check_formula(run, t, g, {})
+        run.cls("enumerated-term")
+    return run
+
+
 def main():
     chk = Check(PID, "exploration", RULE, assumptions=[
         "definitions in vf/checks/c12.py: atoms = maximal Boolean sub-terms that are not connectives, quantifiers, "
@@ -271,6 +292,7 @@ def main():
         "hash-consing (C04) makes DAG node counts comparable with distinct decoded blueprints"])
     thorough = chk.tier == "thorough"
     jobs = [(shard, dict(shard=s, seed=chk.seed, n=30000 if thorough else 1500)) for s in range(16)]
+    jobs += [(shard_enum, dict(shard=s, nshards=16, stride=1 if thorough else 4, offset=chk.seed)) for s in range(16)]
     chk.add(run_shards(jobs))
     chk.floor("binder-shadows-free", 200)
     chk.floor("uf", 500)
